@@ -1,12 +1,58 @@
-"""C09  Tagifiable objects render as their expansion, spliced in place."""
+"""C09  Tagifiable objects render as their expansion, spliced in place.
+
+Every public entry point / keyword argument through which the behaviour the statement describes
+(objects with tagify() expanded in place; their dependencies reported; markup refused while an
+object is un-expanded) can be reached, and where this file exercises it:
+
+  expansion itself
+    Tag.tagify(), TagList.tagify()                        differential + sized stream, routes
+    JSXTag (htmltools._jsx.jsx_tag_create): an object that is tagifiable AND self-rendering
+                                                         routes ('J' descriptions)
+  markup of the expanded tree
+    Tag.render(), TagList.render()                        all streams
+    Tag.get_html_string(indent, eol)                      differential (indent 0..2, eol \n \r\n ''), routes (indent up to 5, odd eol)
+    TagList.get_html_string(indent, eol, add_ws=)         routes (add_ws False and True)
+    str() / repr() / _repr_html_() of Tag and TagList     routes
+    htmltools.html_dependency_render_mode = 'json' + str()  routes (whole text compared, serialised dependencies included)
+    ... fed into HTMLTextDocument(html, deps_replace_pattern=<with regex metacharacters>).render(lib_prefix=, include_version=)
+                                                         routes
+  documents
+    HTMLDocument(*content, lang=/class_=/style= ...).render(lib_prefix= 'lib' | None | 'a/b', include_version= True | False)
+    HTMLDocument.append(); copy.copy(document)            routes, long histories
+    HTMLDocument.save_html(file, libdir= 'lib' | None | nested, include_version=), Tag.save_html(), TagList.save_html()
+                                                         routes (files on disk compared, dependencies with real files > 256 KiB)
+    documents whose content is a lone <html> (with its own <head>/<body>) or <body> tag; head_content() / dependencies
+    carried by expansions                                  deps stream, routes
+  dependencies
+    Tag.get_dependencies(dedup=), TagList.get_dependencies(dedup=) after tagify(); render()['dependencies']
+                                                         routes, sized dependency stream
+  ways of putting an object into a tree
+    Tag(...) / tags.<name>(...) / htmltools.<name>(...) (top-level re-exports) constructors, nested lists / tuples / TagLists as
+    arguments; Tag.append / insert / extend; TagList.append / insert / extend / + / reflected + / += ;
+    `with tag:` + sys.displayhook (wrap_displayhook_handler); consolidate_attrs(...) -> Tag(name, attrs, *children);
+    another tag's .attrs passed as attribute dict           routes ('placing'), long histories
+  copies
+    copy.copy / copy.deepcopy of Tag, TagList, HTMLDocument holding objects; == on them (as an operation whose
+    effect on later results is checked, the statement promises nothing about its value)     routes, long histories
+  refusing markup
+    Tag.get_html_string / TagList.get_html_string with every argument combination on a tree holding an
+    un-expanded object that is not self-rendering         differential oracle, routes
+"""
 from __future__ import annotations
+
+import copy as _copy
+import hashlib
+import os
+import shutil
+import sys
+import tempfile
 
 from ..common import Ctx, S, unS, differential
 from .. import trees
 from ..trees import build, to_sx, safe_call, res_decode, CustomObj, ReprObj
 
 import htmltools
-from htmltools import HTML, HTMLDocument, MetadataNode, Tag, TagList, HTMLDependency
+from htmltools import HTML, HTMLDocument, HTMLTextDocument, MetadataNode, Tag, TagList, HTMLDependency
 
 
 def subst(d):
@@ -82,12 +128,995 @@ def norm(d):
     return [k, d[1]]
 
 
+# =====================================================================================================
+# Descriptions understood by this file only (on top of those of harness/trees.py)
+#   ('J', name, props, kids)   a JSX component: an object that is tagifiable AND self-rendering
+#   ('S', exp, as_list)        a tagifiable object that hands out the SAME stored (already tagified) result
+#                              on every call: the library must neither change it nor depend on its identity
+#   ('X', key, desc)           desc, built once per build9() call: the same live object wherever the key occurs
+#                              (one object placed in two parents / twice in one list)
+#   ('HC', kids)               head_content(*kids)
+#   ('M', {...})               HTMLDependency(**payload)  (already in trees.build)
+#   ('JT', name, props, kids)  only in substituted trees: the tagify() result of a fresh equal JSX component
+#   ('C', ...) may occur below tags inside another object's expansion (expansions nested in expansions)
+# =====================================================================================================
+SIZES = [7, 8, 9, 15, 16, 17, 31, 32, 33, 63, 64, 65, 127, 128, 129, 255, 256, 257, 300]
+DEPTHS = [7, 8, 9, 15, 16, 17, 31, 32, 33, 63, 64, 65, 70]
+
+
+class StoredObj:
+    """tagify() returns the same stored object every time"""
+
+    def __init__(self, stored):
+        self.stored = stored
+
+    def tagify(self):
+        return self.stored
+
+
+class StoredReprObj(StoredObj):
+    def _repr_html_(self):
+        return "<i>stored preview</i>"
+
+
+def subst9(d):
+    """the statement, on the extended descriptions: every object replaced by its fully tagified
+    expansion, a list spliced, anything else in its place -- recursively (also inside expansions)"""
+    k = d[0]
+    if k == "G":
+        return [("G", d[1], d[2], d[3], [y for x in d[4] for y in subst9(x)])]
+    if k == "C":
+        return [y for x in d[2] for y in subst9(x)]
+    if k == "S":
+        return [y for x in d[1] for y in subst9(x)]
+    if k == "X":
+        return subst9(d[2])
+    if k == "J":
+        return [("JT", d[1], d[2], d[3])]
+    return [d]
+
+
+def n_obj9(d):
+    k = d[0]
+    if k in ("J",):
+        return 1
+    if k == "C":
+        return 1 + sum(n_obj9(x) for x in d[2])
+    if k == "S":
+        return 1 + sum(n_obj9(x) for x in d[1])
+    if k == "X":
+        return n_obj9(d[2])
+    if k == "G":
+        return sum(n_obj9(x) for x in d[4])
+    return 0
+
+
+def jsx_create():
+    """the JSX component factory (it is not re-exported at top level), or None"""
+    try:
+        import importlib
+        return getattr(importlib.import_module("htmltools._jsx"), "jsx_tag_create", None)
+    except Exception:
+        return None
+
+
+def no_jsx(d):
+    """the description with JSX components replaced by ordinary objects that are tagifiable and
+    self-rendering (used when the factory cannot be imported)"""
+    k = d[0]
+    if k == "J":
+        return ("C", "<i>component</i>", [("G", "script", True, [], list(d[3]))], False)
+    if k == "G":
+        return ("G", d[1], d[2], d[3], [no_jsx(x) for x in d[4]])
+    if k == "C":
+        return ("C", d[1], [no_jsx(x) for x in d[2]], d[3])
+    if k == "X":
+        return ("X", d[1], no_jsx(d[2]))
+    return d
+
+
+def has_kind(d, kind):
+    k = d[0]
+    if k == kind:
+        return True
+    sub = d[4] if k == "G" else d[2] if k == "C" else d[1] if k in ("S", "HC") else [d[2]] if k == "X" else d[3] if k == "J" else []
+    return any(has_kind(x, kind) for x in sub)
+
+
+def build9(d, memo=None, ctor=0):
+    """live objects of an extended description.  ctor selects how tags are constructed: 0 Tag(name, ...),
+    1 the tag function of htmltools.tags / the top-level re-export when the name has one (children passed
+    as ONE nested list argument, attributes through the public keyword / dict route is C15's subject: they
+    are stored as trees.build stores them)."""
+    memo = {} if memo is None else memo
+    k = d[0]
+    if k == "G":
+        _, name, ws, attrs, kids = d
+        live = [trees.mk_child_text(x[1]) if x[0] == "T" else build9(x, memo, ctor) for x in kids]
+        f = None
+        if ctor == 1:
+            f = getattr(htmltools, name, None) if name in ("div", "span", "p", "a", "b", "code", "em") else None
+            f = f or getattr(htmltools.tags, name, None)
+        if f is not None and getattr(f, "__module__", None) == "htmltools.tags" and getattr(f, "__name__", None) == name:
+            o = f([live[:1], tuple(live[1:])], _add_ws=ws)
+        else:
+            o = Tag(name, *live, _add_ws=ws)
+        for key, (m, v) in attrs:
+            dict.__setitem__(o.attrs, key, trees.mk_html(v) if m == "H" else trees.mk_text(v))
+        return o
+    if k == "C":
+        _, sh, exp, as_list = d
+        exp_b = [build9(x, memo, ctor) for x in exp]
+        if sh is None:
+            if len(exp_b) == 2 and as_list:
+                o = trees.CustomStrObj("<own text>")
+                o.exp, o.as_list = exp_b, True
+                return o
+            return CustomObj(exp_b, as_list)
+        return trees.CustomReprObj(exp_b, as_list, sh)
+    if k == "S":
+        _, exp, as_list = d[0], d[1], d[2]
+        exp_b = [build9(y, memo, ctor) for x in exp for y in subst9(x)]
+        stored = TagList(*exp_b) if as_list else exp_b[0]
+        return StoredReprObj(stored) if len(exp_b) % 2 else StoredObj(stored)
+    if k == "X":
+        if d[1] not in memo:
+            memo[d[1]] = build9(d[2], memo, ctor)
+        return memo[d[1]]
+    if k in ("J", "JT"):
+        comp = jsx_create()(d[1])(*[build9(x, memo, ctor) for x in d[3]], **{a: b for a, b in d[2]})
+        return comp if k == "J" else comp.tagify()
+    if k == "HC":
+        return htmltools.head_content(*[build9(x, memo, ctor) for x in d[1]])
+    if k == "M" and isinstance(d[1], dict) and isinstance(d[1].get("source"), dict) and d[1]["source"].get("subdir") == "$SRC":
+        # dependency files live in a per-process directory (its name is not part of the recorded input)
+        return HTMLDependency(**dict(d[1], source={"subdir": dep_source_dir()}))
+    return build(d)
+
+
+def dep_sig(dep):
+    """what a reported dependency is, by its public attributes (no object identity)"""
+    head = getattr(dep, "head", None)
+    return (dep.name, str(dep.version), repr(getattr(dep, "source", None)), repr(getattr(dep, "script", None)),
+            repr(getattr(dep, "stylesheet", None)), repr(getattr(dep, "meta", None)), bool(getattr(dep, "all_files", False)),
+            None if head is None else safe_call(lambda: TagList(head).get_html_string()))
+
+
+def rendered(r):
+    """canonical form of a render() result"""
+    return {"html": r["html"], "dependencies": [dep_sig(x) for x in r["dependencies"]]}
+
+
+def shape(x):
+    """structure of a live tree, library-independent apart from attribute access (dependencies by their
+    public attributes; objects by class kind)"""
+    if isinstance(x, Tag):
+        return ["G", x.name, bool(x.add_ws), [[k, type(v).__name__ if isinstance(v, HTML) else "str", str(v)] for k, v in x.attrs.items()],
+                [shape(c) for c in x.children]]
+    if isinstance(x, TagList):
+        return ["L", [shape(c) for c in x]]
+    if isinstance(x, HTML):
+        return ["H", str(x)]
+    if isinstance(x, str) and not hasattr(x, "tagify"):
+        return ["T", str(x)]
+    if isinstance(x, HTMLDependency):
+        return ["D", list(dep_sig(x))]
+    if isinstance(x, MetadataNode):
+        return ["M"]
+    if hasattr(x, "tagify"):
+        return ["obj", type(x).__name__]
+    if isinstance(x, ReprObj):
+        return ["R", x.s]
+    return ["?", type(x).__name__]
+
+
+def snapshot(x):
+    """everything a caller can see of a tree WITHOUT asking the library for markup: structure, and for every
+    tagifiable object what it would hand out"""
+    if isinstance(x, Tag):
+        return ["G", x.name, bool(x.add_ws), [[k, type(v).__name__, str(v)] for k, v in x.attrs.items()],
+                [snapshot(c) for c in x.children]]
+    if isinstance(x, (TagList, list, tuple)):
+        return [type(x).__name__, [snapshot(c) for c in x]]
+    if isinstance(x, (CustomObj, trees.CustomStrObj)):
+        return ["obj", type(x).__name__, [snapshot(c) for c in x.exp], x.as_list]
+    if isinstance(x, StoredObj):
+        return ["stored", id(x.stored), snapshot(x.stored)]
+    if type(x).__name__ == "JSXTag":
+        return ["jsx", x.name, sorted((k, repr(v)) for k, v in x.attrs.items()), [snapshot(c) for c in x.children]]
+    return shape(x)
+
+
+# ---- generators ---------------------------------------------------------------------------------------
+OBJ_KINDS = ["empty", "list1", "list2", "list3", "tag", "str", "html", "meta", "list2", "tag"]
+
+
+def rand_fill(rng, deps=False):
+    r = rng.random()
+    if r < 0.45:
+        return ("T", trees.rand_text(rng, 5))
+    if r < 0.6:
+        return ("H", trees.rand_text(rng, 5))
+    if r < 0.68:
+        return ("R", trees.rand_text(rng, 5))
+    if r < 0.76:
+        return ("M", None) if not deps or rng.random() < 0.3 else rand_dep(rng)
+    name, ws = trees.rand_name(rng, "bbiv")
+    return ("G", name, ws, [], [("T", trees.rand_text(rng, 4)) for _ in range(rng.choice([0, 1, 1, 2]))])
+
+
+def rand_dep(rng, name=None):
+    return ("M", {"name": name or rng.choice(["a", "b", "c", "d-e"]), "version": rng.choice(["1.0", "1.10", "2", "0.9.1"]),
+                  "head": rng.choice([None, None, "<meta name='x'>", "<link rel='x' href='&'>"])})
+
+
+def rand_obj(rng, kind=None, deps=False, both=None):
+    """an object with tagify() (a kind of harness/trees.py: usable in the differential with the model).
+    both: also self-rendering (None = 40 %)."""
+    kind = kind or rng.choice(OBJ_KINDS)
+    sh = None
+    if both if both is not None else rng.random() < 0.4:
+        sh = rng.choice(["<i>own &</i>", "", "preview", trees.rand_text(rng, 4)])
+
+    def item():
+        x = rand_fill(rng, deps)
+        return x
+    if kind == "empty":
+        return ("C", sh, [], True)
+    if kind in ("list1", "list2", "list3"):
+        return ("C", sh, [item() for _ in range(int(kind[4]))], True)
+    if kind == "tag":
+        name, ws = trees.rand_name(rng, "bbiv")
+        return ("C", sh, [("G", name, ws, trees.rand_attrs(rng), [item() for _ in range(rng.choice([0, 1, 2, 3]))])], False)
+    if kind == "str":
+        return ("C", sh, [("T", trees.rand_text(rng, 6))], False)
+    if kind == "html":
+        return ("C", sh, [("H", trees.rand_text(rng, 6))], False)
+    if kind == "meta":
+        return ("C", sh, [rand_dep(rng) if deps else ("M", None)], rng.random() < 0.5)
+    raise ValueError(kind)
+
+
+def seam_positions(rng, n):
+    """positions of a list of n that size-dependent code is likely to treat differently: both ends, the
+    indices around every power-of-two boundary below n, the tail"""
+    cand = {0, n - 1, n - 2, n // 2}
+    for t in (8, 16, 32, 64, 128, 256):
+        for p in (t - 1, t, t + 1):
+            if 0 <= p < n:
+                cand.add(p)
+    cand = sorted(p for p in cand if 0 <= p < n)
+    k = rng.choice([1, 2, 3, 4, 6])
+    pos = set(rng.sample(cand, min(k, len(cand))))
+    if rng.random() < 0.7:
+        pos.add(n - 1)                      # the interesting item BEYOND every threshold
+    if rng.random() < 0.3 and n >= 2:
+        p = rng.choice(cand)
+        pos.update({p, min(p + 1, n - 1)})  # adjacent objects at a seam
+    return pos
+
+
+def wide_kids(rng, n, deps=False, kinds=None):
+    """n children (counted before expansion) with objects at the seams; at least one object that is also
+    self-rendering and one that is not when there is room"""
+    mode = rng.choice(["seams", "seams", "seams", "all", "alternate"])
+    if mode == "all":
+        pos = set(range(n))
+    elif mode == "alternate":
+        pos = set(range(rng.randrange(0, 2), n, 2))
+    else:
+        pos = seam_positions(rng, n)
+    order = sorted(pos)
+    rng.shuffle(order)
+    kids = [None] * n
+    for j, p in enumerate(order):
+        both = True if j == 0 else False if j == 1 else None
+        kids[p] = rand_obj(rng, kind=None if kinds is None else rng.choice(kinds), deps=deps, both=both)
+    for p in range(n):
+        if kids[p] is None:
+            kids[p] = rand_fill(rng, deps)
+    return kids
+
+
+def chain(rng, depth, bottom, with_objs_on_the_way=False):
+    """bottom wrapped in `depth` tags (depth counted in tags above it)"""
+    t = bottom
+    for lvl in range(depth):
+        name, ws = trees.rand_name(rng, "bbi")
+        kids = [t]
+        if with_objs_on_the_way and rng.random() < 0.5:
+            kids.insert(rng.randrange(0, 2), rand_obj(rng))
+        elif rng.random() < 0.2:
+            kids.insert(rng.randrange(0, 2), ("T", "x"))
+        t = ("G", name, ws, [], kids)
+    return t
+
+
+LONG_TAILS = ["<tail & end>", "</script>\"'&amp;", "\r\n  é\U0001F600<"]
+
+
+def long_text(rng, n):
+    """at least n characters, markup-significant characters all the way and a distinctive tail"""
+    bits = []
+    ln = 0
+    while ln < n:
+        b = rng.choice(trees.LONG_BITS)
+        bits.append(b)
+        ln += len(b)
+    return "".join(bits) + rng.choice(LONG_TAILS)
+
+
+def sized_tag_cases(rng, per_size):
+    """(description of a Tag, indent, eol) with something countable at, just below and just above the sizes"""
+    out = []
+    spec_only = []
+    ie = lambda: (rng.randrange(0, 3), rng.choice(["\n", "\r\n", ""]))
+    for n in SIZES:
+        for _ in range(per_size):
+            name, ws = trees.rand_name(rng, "bbbiisc")
+            out.append((("G", name, ws, trees.rand_attrs(rng), wide_kids(rng, n)),) + ie())
+    # one object whose expansion has n items (interesting ones last), next to other objects
+    for n in SIZES:
+        exp = [rand_fill(rng) for _ in range(n - 1)] + [("G", "b", False, [], [("T", "last")])]
+        sh = rng.choice([None, None, "<i>self</i>"])
+        kids = [rand_obj(rng), ("C", sh, exp, True), rand_obj(rng, "empty"), ("T", "after")]
+        rng.shuffle(kids)
+        out.append((("G", "div", True, [], kids),) + ie())
+    # nesting depth: objects at the bottom of a chain of tags, and on the way down
+    for dpt in DEPTHS:
+        bottom = ("G", "p", True, [], [rand_obj(rng, both=True), ("T", "bottom"), rand_obj(rng, both=False)])
+        out.append((chain(rng, dpt, bottom, with_objs_on_the_way=rng.random() < 0.5),) + ie())
+    # long strings in expansions and as the object's own markup
+    for ln in (300, 5000, 70000):
+        s = long_text(rng, ln)
+        sh = long_text(rng, ln)
+        kids = [("C", None, [("T", s)], False), ("C", sh, [("H", s)], False),
+                ("C", sh, [("T", "a"), ("G", "span", False, [("title", ("S", s))], [("T", s)]), ("H", s)], True)]
+        name, ws = rng.choice([("div", True), ("span", False), ("script", True)])
+        # (the extracted model's string functions are not tail recursive: the longest strings are judged by
+        # the oracle only)
+        dst = out if ln < 20000 else spec_only
+        dst.append((("G", name, ws, [], kids),) + ie())
+        dst.append((("G", "pre", False, [], [kids[0]]), 0, "\n"))       # only child: the one-line path
+    return out, spec_only
+
+
+def sized_list_cases(rng, per_size):
+    out = []
+    for n in SIZES:
+        for _ in range(per_size):
+            out.append((wide_kids(rng, n), rng.randrange(0, 3), rng.choice(["\n", ""])))
+    for dpt in rng.sample(DEPTHS, 4):
+        out.append(([rand_obj(rng), chain(rng, dpt, ("G", "i", False, [], [rand_obj(rng, both=True)]), True)], 1, "\n"))
+    return out
+
+
+# ---- routes: every entry point, with non-default arguments, judged by the statement ------------------------
+class _Hook:
+    """replaces sys.displayhook while a with-block is exercised (the block shows its tag when it ends)"""
+
+    def __enter__(self):
+        self.old = sys.displayhook
+        self.shown = []
+        sys.displayhook = self.shown.append
+        return self
+
+    def __exit__(self, *a):
+        sys.displayhook = self.old
+        return False
+
+
+def with_block(host, live, nested=False):
+    """host filled through the with-block / sys.displayhook route"""
+    with _Hook():
+        with host:
+            if nested:
+                inner = Tag("section")
+                with inner:
+                    for x in live:
+                        sys.displayhook(x)
+            else:
+                for x in live:
+                    sys.displayhook(x)
+    return host
+
+
+def json_str(x):
+    old = htmltools.html_dependency_render_mode
+    try:
+        htmltools.html_dependency_render_mode = "json"
+        return str(x)
+    finally:
+        htmltools.html_dependency_render_mode = old
+
+
+def dir_listing(root):
+    out = []
+    for base, _dirs, files in os.walk(root):
+        for f in files:
+            p = os.path.join(base, f)
+            with open(p, "rb") as fh:
+                out.append((os.path.relpath(p, root), hashlib.sha1(fh.read()).hexdigest()))
+    return sorted(out)
+
+
+def save_route(make_doc, libdir, iv, via):
+    """save to a fresh directory; what is on disk afterwards"""
+    d = tempfile.mkdtemp(prefix="verif-c09-")
+    try:
+        f = os.path.join(d, "out", "index.html")
+        os.makedirs(os.path.dirname(f))
+        x = make_doc()
+        if via == "doc":
+            r = x.save_html(f, libdir, iv)
+        else:
+            r = x.save_html(f, libdir=libdir, include_version=iv)
+        return (os.path.relpath(r, d), dir_listing(d))
+    finally:
+        shutil.rmtree(d, ignore_errors=True)
+
+
+PATTERNS = ["<meta name='deps(.*)+$'>", "[[deps]]", "<!-- ^deps|x?\\1 -->", "$^"]
+
+
+def place(kids, how, memo, ctor):
+    """a Tag named div / a TagList / an HTMLDocument holding kids (descriptions), put there through `how`.
+    Returns a thunk building a fresh live container (so that every route starts from the same state)."""
+    def live():
+        m = {} if memo is None else dict(memo)
+        return [build9(x, m, ctor) for x in kids]
+    if how == "ctor":
+        return lambda: Tag("div", *live())
+    if how == "ctor-section":
+        return lambda: Tag("div", Tag("section", *live()))
+    if how == "ctor-nested":
+        return lambda: (lambda l: Tag("div", l[:1], [tuple(l[1:2]), TagList(*l[2:])]))(live())
+    if how == "append":
+        def f():
+            t = Tag("div")
+            for x in live():
+                t.append(x)
+            return t
+        return f
+    if how == "append-many":
+        def f():
+            t = Tag("div")
+            l = live()
+            if l:                      # (append() needs at least one argument)
+                t.append(*l)
+            return t
+        return f
+    if how == "insert-front":
+        def f():
+            t = Tag("div")
+            for x in reversed(live()):
+                t.insert(0, x)
+            return t
+        return f
+    if how == "extend":
+        def f():
+            t = Tag("div")
+            l = live()
+            t.extend(l[: len(l) // 2])
+            t.children.extend([l[len(l) // 2:]])
+            return t
+        return f
+    if how == "iadd":
+        def f():
+            t = Tag("div")
+            l = live()
+            t.children += l[:1]
+            t.children += tuple(l[1:])
+            return t
+        return f
+    if how == "add":
+        def f():
+            l = live()
+            t = Tag("div")
+            t.children = l[:1] + (TagList(*l[1:2]) + l[2:])
+            return t
+        return f
+    if how == "with":
+        return lambda: with_block(Tag("div"), live())
+    if how == "with-then-copy":
+        # a tag that was used as a context manager, then compared and copied: the copy is what gets rendered
+        def f():
+            t = with_block(Tag("div"), live(), nested=True)
+            c = _copy.copy(t)
+            t == c
+            return c
+        return f
+    if how == "consolidate":
+        def f():
+            # HTML() values through the class / style helpers, consolidate_attrs, and back into a tag
+            host = Tag("p").add_class(HTML("<k0>")).add_style(HTML("x:'y';"), prepend=True)
+            attrs, ch = htmltools.consolidate_attrs({"class": "k"}, host.attrs, *live(), class_=HTML("<k2>"))
+            return Tag("div", attrs, *ch)
+        return f
+    if how == "attrs-of-other":
+        def f():
+            other = Tag("p", id="other")
+            return Tag("div", other.attrs, *live())
+        return f
+    raise ValueError(how)
+
+
+PLACINGS = ["ctor", "ctor-nested", "append", "append-many", "insert-front", "extend", "iadd", "add", "with",
+            "with-then-copy", "consolidate", "attrs-of-other"]
+
+
+def route_table(p):
+    """(name, f(make)) : make() gives a fresh live Tag; f returns a canonical value.  p: the arguments of
+    this case (all non-default somewhere)."""
+    i, eol, lp, iv, pattern, docattrs, libdir = p["indent"], p["eol"], p["lib_prefix"], p["include_version"], p["pattern"], p["docattrs"], p["libdir"]
+
+    def doc(make, wrap):
+        x = make()
+        if wrap == "html":
+            x = Tag("html", Tag("head", Tag("title", "t")), Tag("body", x, id="own"))
+        elif wrap == "body":
+            x = Tag("body", x)
+        elif wrap == "list":
+            x = TagList(x.children)
+        return HTMLDocument(x, **dict(docattrs))
+
+    def doc_append(make):
+        dd = HTMLDocument(**dict(docattrs))
+        dd.append("first", make())
+        return _copy.copy(dd)
+
+    def textdoc(make):
+        s = json_str(make())
+        dd = HTMLTextDocument("<html><head>" + pattern + "</head><body>" + s + "</body></html>", deps_replace_pattern=pattern)
+        return rendered(dd.render(lib_prefix=lp, include_version=iv))
+
+    rt = [
+        ("Tag.tagify() structure", lambda make: shape(make().tagify())),
+        ("Tag.render()", lambda make: rendered(make().render())),
+        ("TagList.render()", lambda make: rendered(make().children.render())),
+        ("Tag.tagify().get_html_string(indent, eol)", lambda make: make().tagify().get_html_string(i, eol)),
+        ("TagList.tagify().get_html_string(indent, eol, add_ws=False)", lambda make: make().children.tagify().get_html_string(i, eol, add_ws=False)),
+        ("TagList.tagify().get_html_string(indent=, eol=, add_ws=True)", lambda make: make().children.tagify().get_html_string(indent=i, eol=eol, add_ws=True)),
+        ("str(Tag)", lambda make: str(make())),
+        ("repr(TagList)", lambda make: repr(make().children)),
+        ("Tag._repr_html_()", lambda make: make()._repr_html_()),
+        ("TagList._repr_html_()", lambda make: make().children._repr_html_()),
+        ("str(Tag) in json dependency mode", lambda make: json_str(make())),
+        ("str(TagList) in json dependency mode", lambda make: json_str(make().children)),
+        ("json dependency mode -> HTMLTextDocument.render(lib_prefix, include_version)", textdoc),
+        ("Tag.tagify().get_dependencies(dedup=False)", lambda make: [dep_sig(x) for x in make().tagify().get_dependencies(dedup=False)]),
+        ("TagList.tagify().get_dependencies()", lambda make: [dep_sig(x) for x in make().children.tagify().get_dependencies()]),
+        ("TagList.tagify().get_dependencies(dedup=False)", lambda make: [dep_sig(x) for x in make().children.tagify().get_dependencies(dedup=False)]),
+        ("HTMLDocument(tag, **attrs).render(lib_prefix, include_version)", lambda make: rendered(doc(make, None).render(lib_prefix=lp, include_version=iv))),
+        ("HTMLDocument(own <html><head><body>).render(lib_prefix, include_version)", lambda make: rendered(doc(make, "html").render(lib_prefix=lp, include_version=iv))),
+        ("HTMLDocument(own <body>).render()", lambda make: rendered(doc(make, "body").render())),
+        ("HTMLDocument(TagList).render(include_version)", lambda make: rendered(doc(make, "list").render(include_version=iv))),
+        ("HTMLDocument.append(), copy.copy(document).render()", lambda make: rendered(doc_append(make).render(lib_prefix=lp))),
+        ("copy.copy(Tag).render()", lambda make: rendered(_copy.copy(make()).render())),
+        ("copy.deepcopy(Tag).render()", lambda make: rendered(_copy.deepcopy(make()).render())),
+        ("copy.deepcopy(TagList).render()", lambda make: rendered(_copy.deepcopy(make().children).render())),
+    ]
+    if p.get("only") is not None:
+        # a case runs a recorded subset of the routes (the first three always): keeps the quick tier fast
+        rt = [r for j, r in enumerate(rt) if j < 3 or j in set(p["only"])]
+    if p.get("save"):
+        rt += [
+            ("HTMLDocument.save_html(file, libdir, include_version)", lambda make: save_route(lambda: doc(make, p["save"]), libdir, iv, "doc")),
+            ("Tag.save_html(file, libdir=, include_version=)", lambda make: save_route(make, libdir, iv, "tag")),
+            ("TagList.save_html(file, libdir=, include_version=)", lambda make: save_route(lambda: make().children, libdir, iv, "list")),
+        ]
+    return rt
+
+
+N_ROUTES = 24
+
+
+def rand_params(rng, save=False, all_routes=False):
+    return {"only": None if all_routes else sorted(rng.sample(range(3, N_ROUTES), 8)),
+            "indent": rng.choice([0, 1, 2, 5]), "eol": rng.choice(["\n", "\r\n", "", "\t|\n", "<br>"]),
+            "lib_prefix": rng.choice(["lib", None, "a/b", "x y"]), "include_version": rng.random() < 0.5,
+            "pattern": rng.choice(PATTERNS),
+            "docattrs": rng.choice([[], [("lang", "en")], [("lang", "fr"), ("class_", "a b"), ("style", "margin:0")]]),
+            "libdir": rng.choice(["lib", None, "deep/er"]),
+            "save": rng.choice([None, "html", "body", "list"]) if save else False}
+
+
+_SRC = {}
+
+
+def dep_source_dir():
+    """a directory with real dependency files: a small script and a file of more than 256 KiB whose size is
+    not a multiple of 64 KiB"""
+    if "d" not in _SRC:
+        d = tempfile.mkdtemp(prefix="verif-c09-src-")
+        with open(os.path.join(d, "w.js"), "w") as f:
+            f.write("/* w */\n")
+        with open(os.path.join(d, "big.css"), "wb") as f:
+            f.write((b"/*0123456789abcdef*/\n" * 15000)[: 4 * 65536 + 12345] + b"/* tail */")
+        _SRC["d"] = d
+        import atexit
+        atexit.register(shutil.rmtree, d, True)
+    return _SRC["d"]
+
+
+def file_dep(rng):
+    return ("M", {"name": rng.choice(["wdep", "a"]), "version": rng.choice(["1.2.3", "3"]),
+                  "source": {"subdir": "$SRC"}, "script": {"src": "w.js"},
+                  "stylesheet": [{"href": "big.css"}]})
+
+
+def rand_rich_kids(rng, n=None):
+    """children for the routes step: every kind of object (plain, self-rendering too, str subclass, stored,
+    JSX component, shared between two places), expansions carrying dependencies / head_content / tags with
+    further objects inside"""
+    n = n if n is not None else rng.choice([1, 2, 3, 4, 5, 6])
+    kids = []
+    for _ in range(n):
+        r = rng.random()
+        if r < 0.3:
+            kids.append(rand_obj(rng, deps=True))
+        elif r < 0.4:
+            # an expansion that itself contains a tag holding another object (expansions nested in expansions)
+            inner = ("G", "ul", True, [], [rand_obj(rng, deps=True), ("G", "li", True, [], [rand_obj(rng, "list2", both=True)])])
+            kids.append(("C", rng.choice([None, "<i>o</i>"]), [("T", "n"), inner], True))
+        elif r < 0.5:
+            exp = [rand_fill(rng, True) for _ in range(rng.choice([0, 1, 2, 3]))]
+            as_list = len(exp) != 1 or rng.random() < 0.5
+            if not as_list and exp[0][0] == "R":
+                as_list = True
+            kids.append(("S", exp, as_list))
+        elif r < 0.6:
+            props = rng.choice([[], [("a", 1)], [("title", "x<y"), ("n", 2.5)]])
+            jk = [("G", "span", False, [], [("T", "in jsx")])] if rng.random() < 0.6 else []
+            kids.append(("J", rng.choice(["Foo", "My.Comp"]), props, jk))
+        elif r < 0.68:
+            hc = ("HC", [("G", "title", True, [], [("T", trees.rand_text(rng, 4))]), ("H", "<meta name='h'>")][: rng.choice([1, 2])])
+            kids.append(("C", rng.choice([None, "self"]), [hc, ("T", "body text")], True))
+        elif r < 0.74:
+            kids.append(("C", rng.choice([None, "s"]), [file_dep(rng)], rng.random() < 0.5))
+        elif r < 0.84:
+            name, ws = trees.rand_name(rng, "bbivs")
+            inner = [rand_obj(rng, deps=True) for _ in range(rng.choice([1, 1, 2]))]
+            if rng.random() < 0.3:
+                # a JSX component inside an ordinary tag
+                inner.insert(rng.randrange(0, len(inner) + 1), ("J", "Bar", [("k", "v")], [("T", "t")][: rng.randrange(0, 2)]))
+            kids.append(("G", name, ws, trees.rand_attrs(rng), inner))
+        else:
+            kids.append(rand_fill(rng, True))
+    if kids and rng.random() < 0.35:
+        # one object placed twice: in this list and inside another parent
+        j = rng.randrange(0, len(kids))
+        if kids[j][0] in ("C", "S", "J"):
+            sh = ("X", "k%d" % j, kids[j])
+            kids[j] = sh
+            kids.insert(rng.randrange(0, len(kids) + 1), ("G", "section", True, [], [("T", "again"), sh]) if rng.random() < 0.5 else sh)
+    return kids
+
+
+def unexpanded_plain(d):
+    """the tree holds an object that is not self-rendering, at a position that is rendered"""
+    k = d[0]
+    if k == "C":
+        return d[1] is None
+    if k == "X":
+        return unexpanded_plain(d[2])
+    if k == "S":
+        return len([y for x in d[1] for y in subst9(x)]) % 2 == 0       # StoredObj (not the self-rendering variant)
+    if k == "G":
+        return any(unexpanded_plain(x) for x in d[4])
+    return False
+
+
+def has_str_obj(d):
+    k = d[0]
+    if k == "C":
+        return d[1] is None and len(d[2]) == 2 and d[3]
+    if k == "X":
+        return has_str_obj(d[2])
+    if k == "G":
+        return any(has_str_obj(x) for x in d[4])
+    return False
+
+
+def check_routes(case):
+    """case = (kids, placing, ctor, params).  Every route applied to the tree holding the objects must give
+    what it gives for the tree with each object replaced by its expansion; nothing the caller holds may have
+    changed afterwards; a second round gives the same again."""
+    kids, how, ctor, p = case
+    p = dict(p) if not isinstance(p, dict) else p
+    kids = list(kids)
+    if jsx_create() is None:
+        kids = [no_jsx(x) for x in kids]
+    if how.startswith("with"):
+        # the display hook turns self-rendering objects that are not tagifiable into HTML() (another property's
+        # subject): none at top level here
+        kids = [("H", x[1]) if x[0] == "R" else x for x in kids]
+    wkids = [y for x in kids for y in subst9(x)]
+    make_t = place(kids, how, None, ctor)
+    # the expectation is built through the same mutators (what those do to ordinary nodes is other properties'
+    # subject); for the with-block: the tree the block is documented to build, by the constructor
+    make_w = place(wkids, {"with": "ctor", "with-then-copy": "ctor-section"}.get(how, how), None, ctor)
+    for name, f in route_table(p):
+        got = safe_call(lambda: f(make_t))
+        want = safe_call(lambda: f(make_w))
+        if got != want:
+            return (f"{name} of a tree holding objects differs from that of the tree with each object replaced by its expansion",
+                    {"impl_output": repr(got)[:700], "expected": repr(want)[:700], "placing": how})
+    # one live tree through all read-only routes, twice: same results, caller's objects untouched
+    bt = safe_call(make_t)
+    if bt[0] != "ok":
+        if safe_call(make_w)[0] == "ok":
+            return ("putting objects into a container fails where putting their expansions there works",
+                    {"impl_output": repr(bt), "expected": "ok", "placing": how})
+        return None
+    t = bt[1]
+    before = snapshot(t)
+    first = []
+    ro = [(n, f) for n, f in route_table(dict(p, save=False))]
+    for rnd in range(2):
+        for j, (name, f) in enumerate(ro):
+            r = safe_call(lambda: f(lambda: t))
+            if rnd == 0:
+                first.append(r)
+            elif r != first[j]:
+                return (f"{name}: a second call on the same tree gives something else than the first",
+                        {"impl_output": repr(r)[:500], "expected": repr(first[j])[:500]})
+        if snapshot(t) != before:
+            # which call did it: one fresh tree per route
+            for name, f in ro:
+                t2 = make_t()
+                b2 = snapshot(t2)
+                safe_call(lambda: f(lambda: t2))
+                if snapshot(t2) != b2:
+                    return (f"{name} changed the tree it was asked to render (or what one of its objects hands out)",
+                            {"impl_output": repr(snapshot(t2))[:600], "expected": repr(b2)[:600]})
+            return ("a sequence of read-only calls changed the tree they were asked to render (or what one of its objects hands out)",
+                    {"impl_output": repr(snapshot(t))[:600], "expected": repr(before)[:600]})
+    # the result of tagify() is the caller's: changing it must not show in the original
+    r = safe_call(lambda: t.tagify())
+    has_stored = any(has_kind(x, "S") for x in kids)   # a stored result is, by construction, shared with the object that hands it out
+    if r[0] == "ok" and not has_stored:
+        want = safe_call(lambda: rendered(t.render()))
+        def scribble(x, depth=0):
+            x.append("scribble")
+            x.attrs["data-scribble"] = "1"
+            for c in list(x.children):
+                if isinstance(c, Tag) and depth < 80:
+                    scribble(c, depth + 1)
+        safe_call(lambda: scribble(r[1]))
+        rr = safe_call(lambda: t.render())
+        if rr[0] == "ok":
+            # what render() reports is the caller's too
+            for dep in rr[1]["dependencies"]:
+                dep.name = "scribbled"
+            rr[1]["dependencies"].clear()
+        got = safe_call(lambda: rendered(t.render()))
+        if got != want:
+            return ("changing the tree returned by tagify() changes what the original tree renders as",
+                    {"impl_output": repr(got)[:500], "expected": repr(want)[:500]})
+    # markup must be refused while a plain object is un-expanded, whatever the arguments
+    d = ("G", "div", True, [], kids)
+    if how in ("ctor", "append", "extend", "iadd") and unexpanded_plain(d) and not has_str_obj(d):
+        t = make_t()
+        for name, f in [("Tag.get_html_string(indent, eol)", lambda: t.get_html_string(p["indent"], p["eol"])),
+                        ("Tag.get_html_string()", lambda: t.get_html_string()),
+                        ("TagList.get_html_string(indent, eol, add_ws=False)", lambda: t.children.get_html_string(p["indent"], p["eol"], add_ws=False)),
+                        ("TagList.get_html_string(add_ws=True)", lambda: t.children.get_html_string(add_ws=True))]:
+            u = safe_call(f)
+            if u[0] == "ok" or u[1] == "exc:did-not-terminate":
+                return (f"{name} on a tree with an un-expanded object (not self-rendering) did not raise",
+                        {"impl_output": repr(u)[:400], "expected": "an error"})
+    return None
+
+
+def spec_step(ctx, name, cases, check, nontrivial=lambda c: True, kind=lambda c: None):
+    cases = ctx.select(name, cases)
+    for c in cases:
+        ctx.count(c, nontrivial(c), kind(c))
+        r = check(c)
+        if r is not None:
+            ctx.violation(f"{name}: {r[0]}", c, r[1])
+
+
+def route_cases(ctx):
+    rng = ctx.rng
+    out = []
+    for _ in range(ctx.budget(120, 1800)):
+        out.append((rand_rich_kids(rng), rng.choice(PLACINGS), rng.randrange(0, 2),
+                    rand_params(rng, save=rng.random() < 0.12, all_routes=rng.random() < 0.1)))
+    # sizes: many children / many objects / long expansions / deep chains, through a random placing each
+    for n in SIZES:
+        kids = wide_kids(rng, n, deps=True)
+        j = rng.randrange(0, n)
+        kids[j] = rng.choice([("J", "Foo", [("a", 1)], []), ("S", [rand_fill(rng, True) for _ in range(3)], True), kids[j]])
+        out.append((kids, rng.choice(PLACINGS), rng.randrange(0, 2), rand_params(rng, all_routes=not ctx.quick)))
+    for dpt in (DEPTHS if not ctx.quick else rng.sample(DEPTHS, 3)):
+        bottom = ("G", "p", True, [], rand_rich_kids(rng, 3))
+        out.append(([chain(rng, dpt, bottom, True)], rng.choice(PLACINGS), 0, rand_params(rng)))
+    # many dependencies carried by expansions: n objects with one each / one object with n
+    for n in (SIZES if not ctx.quick else rng.sample(SIZES, 4)):
+        names = ["dep%d" % (j % max(3, n - 2)) for j in range(n)]          # a few repeated names (later ones in the tail)
+        deps = [("M", {"name": nm, "version": rng.choice(["1.0", "1.10", "2"]), "head": "<meta name='%s'>" % nm}) for nm in names]
+        if rng.random() < 0.5:
+            kids = [("C", rng.choice([None, "s"]), [dd], rng.random() < 0.5) for dd in deps]
+        else:
+            kids = [("T", "x"), ("C", rng.choice([None, "s"]), deps + [("T", "tail")], True), rand_obj(rng, deps=True)]
+        out.append((kids, rng.choice(PLACINGS), 0, rand_params(rng)))
+    return out
+
+
+# ---- long histories ---------------------------------------------------------------------------------------
+def long_history(case):
+    """case = (root kind, [op...]).  One live container receives a long sequence of operations (objects and
+    ordinary nodes added through every mutator, renders / tagify / copies / comparisons in between); at
+    checkpoints it must render as the tree described by the descriptions added so far, objects replaced."""
+    root_kind, ops = case
+    mk = lambda *a: Tag("div", *a) if root_kind == "tag" else TagList(*a) if root_kind == "list" else HTMLDocument(*a, lang="en")
+    empty0 = safe_call(lambda: rendered(mk().render()))      # what an empty container is, before anything happened
+    root = mk()
+    # a second container of the same class, with objects of the same classes, made BEFORE the operations
+    twin_d = [("C", None, [("T", "twin"), ("G", "b", False, [], [])], True), ("T", "t"), ("C", "<i>tw</i>", [("M", {"name": "twin-dep", "version": "1"})], False)]
+    twin = mk(*[build9(x) for x in twin_d])
+    have = []
+    entered = []
+
+    def expected():
+        w = [build9(y) for x in have for y in subst9(x)]
+        if root_kind == "tag":
+            return rendered(Tag("div", *w).render())
+        if root_kind == "list":
+            return rendered(TagList(*w).render())
+        return rendered(HTMLDocument(*w, lang="en").render())
+
+    kids_of = lambda: root.children if root_kind == "tag" else root if root_kind == "list" else None
+    for step, op in enumerate(ops):
+        what = op[0]
+        if what == "check":
+            got = safe_call(lambda: rendered(root.render()))
+            want = safe_call(expected)
+            if got != want:
+                return ("after a sequence of operations the container does not render as the tree of everything added so far with "
+                        "objects replaced by their expansions", {"impl_output": repr(got)[-600:], "expected": repr(want)[-600:], "step": step})
+            tw = safe_call(lambda: rendered(twin.render()))
+            tw_want = safe_call(lambda: rendered(mk(*[build9(y) for x in twin_d for y in subst9(x)]).render()))
+            if tw != tw_want:
+                return ("a second, untouched container of the same class does not render as its own content with objects "
+                        "replaced after operations on the first", {"impl_output": repr(tw)[:400], "expected": repr(tw_want)[:400], "step": step})
+            fresh = safe_call(lambda: rendered(mk().render()))
+            if fresh != empty0:
+                return ("a container made without children is not empty after operations on another one",
+                        {"impl_output": repr(fresh)[:400], "expected": repr(empty0)[:400], "step": step})
+            continue
+        if what in ("render", "tagify", "copy", "eq", "str"):
+            if what == "render":
+                safe_call(lambda: root.render())
+            elif what == "tagify" and root_kind != "doc":
+                safe_call(lambda: root.tagify())
+            elif what == "copy":
+                safe_call(lambda: _copy.copy(root))
+            elif what == "eq":
+                safe_call(lambda: root == twin)
+            elif what == "str" and root_kind != "doc":
+                safe_call(lambda: str(root))
+            continue
+        descs = list(op[1]) if jsx_create() is not None else [no_jsx(x) for x in op[1]]
+        live = [build9(x) for x in descs]
+        arg = list(live)
+        arg_before = [id(x) for x in arg]
+        if root_kind == "doc" or what == "append":
+            r = safe_call(lambda: root.append(*live))
+            have.extend(descs)
+        elif what == "insert":
+            idx = op[2] % (len(have) + 1)
+            # insert takes ONE child; a list argument is flattened in place (live children: one per description)
+            r = safe_call(lambda: root.insert(idx, arg))
+            have[idx:idx] = descs
+        elif what == "extend":
+            r = safe_call(lambda: root.extend(arg))
+            have.extend(descs)
+        elif what == "iadd":
+            def f():
+                k = kids_of()
+                k += arg
+            r = safe_call(f)
+            have.extend(descs)
+        elif what == "add":
+            def f():
+                new = kids_of() + arg
+                if root_kind == "tag":
+                    root.children = new
+                else:
+                    kids_of()[:] = new
+            r = safe_call(f)
+            have.extend(descs)
+        elif what == "radd":
+            def f():
+                new = arg + kids_of()
+                if root_kind == "tag":
+                    root.children = new
+                else:
+                    kids_of()[:] = new
+            r = safe_call(f)
+            have[0:0] = descs
+        elif what == "with" and root_kind == "tag" and not entered:
+            # (a tag can be entered once)
+            entered.append(True)
+            r = safe_call(lambda: with_block(root, [x for x in live]))
+            have.extend(descs)
+        elif what == "with":
+            r = safe_call(lambda: root.append(with_block(Tag("section"), [x for x in live])))
+            have.append(("G", "section", True, [], descs))
+        else:
+            r = safe_call(lambda: root.append(*live))
+            have.extend(descs)
+        if r[0] != "ok":
+            return (f"{what}() of valid children failed", {"impl_output": repr(r), "expected": "ok", "step": step})
+        if [id(x) for x in arg] != arg_before or len(arg) != len(live):
+            return (f"{what}() changed the list it was given", {"impl_output": len(arg), "expected": len(live), "step": step})
+    return None
+
+
+def history_cases(ctx):
+    rng = ctx.rng
+    out = []
+    lens = [300, 130, 66, 40, 34, 20, 12] if ctx.quick else [300, 300, 260, 258, 130, 129, 70, 66, 65, 40, 34, 33, 20, 17, 12, 9]
+    for K in lens:
+        root_kind = rng.choice(["tag", "tag", "list", "doc"])
+        ops = []
+        n_items = 0
+        marks = set()
+        for t in (8, 16, 32, 64, 128, 256):
+            marks.update({t - 1, t, t + 1})
+        for step in range(K):
+            r = rng.random()
+            if r < 0.12:
+                ops.append((rng.choice(["render", "tagify", "copy", "eq", "str"]),))
+                continue
+            what = rng.choice(["append", "append", "insert", "extend", "iadd", "add", "radd", "with"])
+            # display hook: R leaves excluded (converted by the hook: another property's subject)
+            k = rng.choice([1, 1, 1, 2, 3])
+            descs = []
+            for _ in range(k):
+                q = rng.random()
+                if q < 0.45:
+                    x = rand_obj(rng, deps=True)
+                elif q < 0.55:
+                    x = ("G", "p", True, [], [rand_obj(rng, deps=True)])
+                elif q < 0.6:
+                    x = ("J", "Foo", [("n", step)], [])
+                else:
+                    x = rand_fill(rng, True)
+                    if x[0] == "R":
+                        x = ("H", x[1])
+                descs.append(x)
+            if what == "insert":
+                descs = descs[:1]
+                ops.append((what, descs, rng.randrange(0, 1000)))
+            else:
+                ops.append((what, descs))
+            before = n_items
+            n_items += len(descs)
+            if any(before < m <= n_items for m in marks):
+                ops.append(("check",))
+        ops.append(("check",))
+        out.append((root_kind, ops))
+    return out
+
+
 def run(ctx: Ctx) -> None:
     rng = ctx.rng
     ctx.rule = ("random trees (depth <= 4) containing objects with tagify() at random positions (adjacent, first, "
                 "last, nested inside tags inside expansions), whose tagify() returns a TagList of 0..3 items or a "
                 "single Tag / str / HTML / metadata node; some objects also self-render via _repr_html_. Checked: "
                 "tagify() structure, render()['html'], get_html_string() on un-expanded trees, HTMLDocument.render(). "
+                "Sized stream: child lists / TagLists of 7..300 nodes (just below, at, above 8, 16, .., 256) with objects "
+                "of every kind at both ends and at the seams, all-object and alternating lists, expansions of 7..300 items, "
+                "chains of 7..70 nested tags with objects at the bottom and on the way, strings of >= 300 / 5000 / 70000 "
+                "characters in expansions. Routes step: every public entry point (see the list at the top of the harness "
+                "file) with non-default arguments on trees holding plain / self-rendering / str-subclass / stored-result / "
+                "JSX / shared objects whose expansions carry dependencies, head_content and further objects, each compared "
+                "with the same route on the substituted tree; second call, caller-side snapshots, tagify() result aliasing. "
+                "Long histories: 12..300 operations through every mutator with checkpoints around the sizes. "
                 "Non-trivial = tree has >= 2 tagifiable objects; distinct = canonical (tree, indent, eol).")
     ctx.assumptions = ["an object's tagify() returns already-tagified content (the documented contract of the protocol)"]
     ctx.proof()
@@ -104,6 +1133,9 @@ def run(ctx: Ctx) -> None:
         (("G", "ul", True, [], [E(("G", "li", True, [], [])), E(("G", "li", True, [], []), ("G", "li", True, [], []))]), 1, "\n"),
         (("G", "span", False, [], [("C", None, [("G", "b", False, [], [])], False), E(("M", None)), ("C", "<self>", [("T", "z")], True)]), 0, "\n"),
     ]
+
+    sized, sized_spec_only = sized_tag_cases(rng, ctx.budget(2, 12))
+    cases += sized
 
     def impl(c):
         d, i, eol = c
@@ -155,12 +1187,20 @@ def run(ctx: Ctx) -> None:
                  impl=impl, decode=decode, oracle=oracle,
                  nontrivial=lambda c: n_custom(c[0]) >= 2, kind=lambda c: f"{min(n_custom(c[0]), 5)} objects")
 
+    def oracle_only(c):
+        msg = oracle(c, impl(c))
+        return None if msg is None else (msg, {"impl_output": repr(impl(c))[-600:]})
+    spec_step(ctx, "Tag.tagify() + get_html_string, very long strings", sized_spec_only, oracle_only,
+              kind=lambda c: "very long strings")
+
     # ---- TagList.tagify --------------------------------------------------------------
     lcases = []
     for _ in range(ctx.budget(1500, 20000)):
         items = [trees.rand_child(rng, rng.choice([0, 1, 2]), leaves="TTHRM", names="bbivsc", custom=True)
                  for _ in range(rng.choice([0, 1, 2, 3, 4, 5]))]
         lcases.append((items, rng.randrange(0, 3), rng.choice(["\n", ""])))
+
+    lcases += sized_list_cases(rng, ctx.budget(2, 10))
 
     def limpl(c):
         items, i, eol = c
@@ -174,6 +1214,12 @@ def run(ctx: Ctx) -> None:
         want = [y for x in items for y in subst(x)]
         if out[0] != "ok" or out[1] != [norm(x) for x in want]:
             return "TagList.tagify() is not the in-place substitution of expansions"
+        w = safe_call(lambda: TagList(*[build(x) for x in want]).get_html_string(i, eol))
+        if out[2] != w:
+            return "rendering after TagList.tagify() differs from rendering the substituted list"
+        r = safe_call(lambda: TagList(*[build(x) for x in items]).render()["html"])
+        if r != safe_call(lambda: TagList(*[build(x) for x in want]).get_html_string()):
+            return "TagList.render()['html'] differs from rendering the substituted list"
         return None
 
     differential(ctx, "TagList.tagify() + get_html_string", lcases,
@@ -206,9 +1252,13 @@ def run(ctx: Ctx) -> None:
                           d, {"impl_output": repr(got)[:600], "expected": repr(want)[:600]})
     histories(ctx)
 
-
-def _run_histories_marker():
-    pass
+    # ---- every entry point with non-default arguments; objects of every kind; sizes -------------------
+    spec_step(ctx, "routes", route_cases(ctx), check_routes,
+              nontrivial=lambda c: sum(n_obj9(x) for x in c[0]) >= 2,
+              kind=lambda c: "routes: placed by " + c[1])
+    # ---- long operation sequences on one container ----------------------------------------------------
+    spec_step(ctx, "long history", history_cases(ctx), long_history,
+              kind=lambda c: "long history (%s)" % c[0])
 
 
 def histories(ctx: Ctx) -> None:
